@@ -1,5 +1,5 @@
 #!/bin/bash
 # runs every check (tier $1, default quick) a few at a time; prints the summary lines
 tier=${1:-quick}
-cd /verif
+cd "$(dirname "$0")/.."
 printf '%s\n' C01 C02 C03 C04 C05 C06 C07 C08 C09 C10 C11 C12 C13 C14 C15 C16 C17 C18 C19 C20 | xargs -P ${2:-3} -I{} sh -c "./check {} $tier 2>&1 | grep -E 'VIOLATION|KNOWN-FINDING|INCONCLUSIVE|seed=' | cut -c1-300"
